@@ -1,5 +1,5 @@
 (* RunC08.v -- runner for C08.  One case = the abstract view of a file (what every task reads) plus its bytes:
-     (case xFILE (meta xVER xMARK (d trailer...) MAXID ENC [(xc (NUM CONTAINER) ...)]) (entries E ...) [(model pinned)] [CRYPT])
+     (case xFILE (meta xVER xMARK (d trailer...) MAXID ENC [(xc (NUM CONTAINER) ...)]) (entries E ...) [(model pinned|skipped)] [CRYPT])
      E ::= (KEY OFF fail) | (KEY OFF (obj (ID GEN) OBJ)) | (KEY OFF (stm (ID GEN) (d ...) xCONTENT START MEMBERS))
      START ::= none | N          MEMBERS ::= none | (m ((ID GEN) OBJ) ...)
      CRYPT ::= (crypt OPENS (dec ((ID GEN) OBJ OBJ|err) ...) (osm (xCONTENT MEMBERS) ...))
@@ -145,7 +145,16 @@ Definition classify (uniq : list (bytes * sx)) (ds : list sx) : list nat * list 
 Definition orders {A} (limit : nat) (l : list A) : list (list A) :=
   if Nat.leb (length l) limit then perms l else [l; rev l].
 
-Definition run (x : sx) : sx :=
+(* A case marked (model skipped) is decided on the implementation alone (all loads equal, equal to the sequential build): the
+   list-based maps of the model are quadratic, a file of several thousand object streams takes it half a minute.  Nothing is
+   computed for such a case and nothing truncated: the answer says so and props/c08.py counts it as not compared. *)
+Definition model_skipped (x : sx) : bool :=
+  match x with
+  | SL l => existsb (fun e => match e with SL [t; m] => is_id t "model" && is_id m "skipped" | _ => false end) l
+  | _ => false
+  end.
+
+Definition run_model (x : sx) : sx :=
   match file_of_sx x, crypt_of_sx x with
   | None, _ | _, None => sx_id "badcase"
   | Some (f, pinned), Some c =>
@@ -164,6 +173,9 @@ Definition run (x : sx) : sx :=
         SL (sx_id "z" :: map (fun k => sx_N (N.of_nat k)) zi);
         SL (sx_id "docs" :: map snd u2)]
   end.
+
+Definition run (x : sx) : sx :=
+  if model_skipped x then SL [sx_id "model-skipped"] else run_model x.
 
 (* Base.Sx.sx_parse reverses every atom with List.rev, which is quadratic, and a case carries its whole file as ONE atom
    (files with a container of a few thousand members are 50 kB).  The same stack machine with rev_append, proved equal to it. *)
